@@ -22,7 +22,11 @@ case "$CFG" in
   default_nodebug)    FEATS="--no-default-features --features ibig,rayon"; EXTRA="-C debug-assertions=off";;
   *) echo "unknown config $CFG"; exit 2;;
 esac
-TD=$V/.work/target-$CFG
+TD=$V/.work/target-$CFG${VERIF_TARGET_SUFFIX:-}
+# a private copy of the warmed target directory for parallel self-test workers (E6): dependency artifacts are copied once
+if [ -n "${VERIF_TARGET_SUFFIX:-}" ] && [ ! -d "$TD" ] && [ -d "$V/.work/target-$CFG" ]; then
+  cp -a "$V/.work/target-$CFG" "$TD.tmp.$$" 2>/dev/null && mv "$TD.tmp.$$" "$TD" 2>/dev/null || rm -rf "$TD.tmp.$$"
+fi
 mkdir -p "$TD" "$(dirname "$OUT")"
 # one extraction per target directory at a time (checks may be started in parallel)
 exec 9>"$TD/.extract.lock"
